@@ -86,7 +86,7 @@ func c10Scaling(env *Env, tape *sim.Tape) *CaseOut {
 		}
 	} else {
 		a := markupPos(tape, doc.Data)
-		l := 1 + tape.Draw(4) // mostly a token or two: "\\\n", "</b>", "x,"
+		l := 1 + tape.Draw(6) // mostly a token or two: "\\\n", "</b>", "x,"
 		switch tape.Draw(6) {
 		case 0, 1:
 			l = 1 + tape.Draw(24)
